@@ -12,9 +12,11 @@ and the real sshuttle.client._main (handshake, Mux, onroutes, recording firewall
 stub) are run against the extracted Coq model (coq/Model/Routes.v) on the same
 generated inputs.  Independent oracle for well-formed tables: ipaddress.ip_network."""
 import ast
+import errno
 import io
 import ipaddress
 import os
+import random
 import re
 import struct
 import sys
@@ -31,7 +33,11 @@ RULE = ("routing-table texts: iproute2, Windows `route PRINT -4` (On-link and ga
         "(list_routes() and server.main in a child interpreter, real Popen / which / PATH): 0 .. several thousand lines "
         "(thorough: 40000), exactly as many lines as the pipe holds and one more, written at once / page by page / slowly "
         "in odd-sized chunks that end inside lines / after an initial delay, exit status zero and non-zero after printing; "
-        "the call must return within the time limit with exactly the canonical networks of the lines printed.  A case is non-trivial when at least one route is produced "
+        "the call must return within the time limit with exactly the canonical networks of the lines printed; the ROUTES message "
+        "on the wire: real Mux.send / Mux.flush of the server on a non-blocking stdout (accepting everything / a page / seeded short "
+        "writes and EAGAIN / a real kernel pipe read in portions), latency buffer size 32768 and small / random values, frame sizes "
+        "just below / at / above the latency buffer size and up to 65535 payload bytes, decoded by the real client-side Mux.handle: "
+        "the route handler must get exactly the advertised list, once.  A case is non-trivial when at least one route is produced "
         "or a line is rejected for a reason other than being blank; distinct by content hash")
 TRUSTED_BASE = [
     "modelled, not verified: CPython re (the _ipmatch pattern, re-implemented as a structural recogniser and differential-tested on ASCII strings), "
@@ -40,6 +46,10 @@ TRUSTED_BASE = [
     "fake Popen (stdout = io.BytesIO(text), wait() = 0 or a non-zero status), fake which(), sys.platform as seen by server.py = 'linux' or 'win32' "
     "(then helpers.SocketRWShim is replaced by a pass-through: its threads are not run), fake FileIO/stdout for server.main, fake ssh.connect / runonce and a recording firewall stub for client._main",
     "socket.AF_INET = 2, socket.AF_INET6 = 10 (Linux values; defined in Model/Routes.v)",
+    "the wire between server and client (implementation-side oracle, not in the Coq model): the server's stdout is a stand-in whose write() accepts a "
+    "prefix of what it is offered or answers None / BlockingIOError(EAGAIN) (never more than 3 times in a row), or a real os.pipe made non-blocking "
+    "and read in seeded portions; Mux.flush is called once per pass as runonce does (select itself is not run; at most 4 * queued bytes + 100 passes); "
+    "ssh in between is taken to carry the bytes unchanged",
     "real-process runs: the routing tool is a small program written by the harness (prints a generated table in a given chunking, "
     "then exits with a given status) in a temporary directory put first on PATH of a child interpreter only; the pipe, its capacity "
     "(fcntl F_GETPIPE_SZ, 65536 here), blocking writes, Popen, which() (for `ip`; for netstat it only hides the machine's own ip) "
@@ -247,14 +257,112 @@ class PassThroughShim:
         return self.r, self.w
 
 
-def impl_server(tool, text, rv=0, real=False):
-    """real server.main (auto_nets on) up to the first runonce; `tool` is the machine's only routing tool
-    ('win': sys.platform == 'win32', 'none': neither ip nor netstat), rv its exit status.
-    real: the routing tool is a program on PATH started by the real subprocess.Popen (see real_run).
-    Returns ('OK', payload, wire) or ('CRASH', cls, None)."""
+class SchedW:
+    """stdout of the server as the server's Mux sees it: a non-blocking descriptor.  write() accepts a PREFIX of what it
+    is offered - all of it ('whole'), at most one page ('page'), or a length drawn from a seeded schedule ('rand':
+    1 .. ~75000 bytes, i.e. fewer bytes than offered as well as everything) - or nothing at all, the way a full pipe
+    answers: None (raw FileIO on EAGAIN) or BlockingIOError(EAGAIN) (a socket), never more than 3 times in a row."""
+
+    def __init__(self, style, seed):
+        self.style, self.rnd = style, random.Random(seed)
+        self.got = bytearray()
+        self.stall = 0
+        self.calls = 0
+
+    def fileno(self):
+        return 1
+
+    def write(self, b):
+        self.calls += 1
+        b = bytes(b)
+        if self.style == "whole":
+            k = len(b)
+        elif self.style == "page":
+            k = min(len(b), 4096)
+        else:
+            if self.rnd.random() < 0.25 and self.stall < 3:
+                self.stall += 1
+                if self.rnd.random() < 0.5:
+                    return None
+                raise BlockingIOError(errno.EAGAIN, "Resource temporarily unavailable")
+            self.stall = 0
+            k = min(len(b), int(2 ** self.rnd.uniform(0, 16.2)))
+        self.got += b[:k]
+        return k
+
+    def flush(self):
+        pass
+
+
+WIRE_STYLES = ("whole", "page", "rand", "pipe")
+LAST_WIRE = {}
+
+
+def drain_mux(mux, style, seed):
+    """what the server's runonce loop does with the queued frames: Mux.flush() (the real one) once per pass while the
+    Mux has something queued, on a non-blocking stdout that takes what it takes (SchedW, or - style 'pipe' - a real
+    kernel pipe made non-blocking whose other end is read in seeded portions between the passes).
+    Returns (bytes that reached the other end, drained?, passes, bytes still queued).  The number of passes is bounded
+    by 4 * queued bytes + 100: every writer here accepts at least one byte in any 4 consecutive passes, so a Mux still
+    holding data after that can never send it."""
+    total = sum(len(x) for x in mux.outbuf)
+    bound = 4 * total + 100
+    rounds = 0
+    if style == "pipe":
+        rfd, wfd = os.pipe()
+        os.set_blocking(rfd, False)
+        os.set_blocking(wfd, False)
+        w = io.FileIO(wfd, "w")
+        rnd = random.Random(seed)
+        got = bytearray()
+        mux.wfile = w
+        try:
+            idle = False
+            while mux.outbuf and rounds < bound:
+                rounds += 1
+                mux.flush()
+                if idle or rnd.random() < 0.7:
+                    idle = False
+                    try:
+                        got += os.read(rfd, int(2 ** rnd.uniform(8, 17)))
+                    except BlockingIOError:
+                        pass
+                else:
+                    idle = True
+            while True:
+                try:
+                    c = os.read(rfd, 1 << 20)
+                except BlockingIOError:
+                    break
+                if not c:
+                    break
+                got += c
+        finally:
+            w.close()
+            os.close(rfd)
+        got = bytes(got)
+    else:
+        w = SchedW(style, seed)
+        mux.wfile = w
+        while mux.outbuf and rounds < bound:
+            rounds += 1
+            mux.flush()
+        got = bytes(w.got)
+    return got, not mux.outbuf, rounds, sum(len(x) for x in mux.outbuf)
+
+
+def impl_server(tool, text, rv=0, real=False, lbs=32768, wr=("whole", 0)):
+    """real server.main (auto_nets on, latency buffer size lbs) up to the first runonce, then what that runonce loop
+    does for the queued frames: the real Mux.flush() until nothing is queued (drain_mux; wr = (writer style, seed)).
+    `tool` is the machine's only routing tool ('win': sys.platform == 'win32', 'none': neither ip nor netstat), rv its
+    exit status.  real: the routing tool is a program on PATH started by the real subprocess.Popen (see real_run).
+    Returns ('OK', payload handed to Mux.send, wire = the bytes that left the server: sync string + what the real
+    flush wrote) or ('CRASH', cls, None); LAST_WIRE tells whether the Mux could be drained."""
     S = load()
     server, ssnet, helpers = S["server"], S["ssnet"], S["helpers"]
     cap = {}
+    old_lbs = ssnet.LATENCY_BUFFER_SIZE
+    LAST_WIRE.clear()
 
     def stop(handlers, mux):
         cap["mux"] = mux
@@ -280,30 +388,91 @@ def impl_server(tool, text, rv=0, real=False):
     server.io = IoShim()
     ssnet.runonce = stop
     helpers.log = server.log = lambda s: None
+    payload = None
     try:
         try:
-            server.main(False, 32768, False, None, True)   # the client always passes a latency buffer size
+            server.main(False, lbs, False, None, True)   # the client always passes a latency buffer size
         except StopLoop:
             pass
         except BaseException as e:
             return ("CRASH", exc_name(e), None)
+        if (PassThroughShim.made - made0) != (1 if tool == "win" else 0):
+            return ("CRASH", "stdio-shim-used-%d-times-on-%s" % (PassThroughShim.made - made0, shim.platform), None)
+        mux = cap["mux"]
+        for p in mux.outbuf:
+            (_s1, _s2, ch, cmd, ln) = struct.unpack("!ccHHH", bytes(p[:8]))
+            if cmd == ssnet.CMD_ROUTES:
+                payload = bytes(p[8:])
+        if payload is None:
+            return ("CRASH", "no-ROUTES-frame", None)
+        queued = sum(len(x) for x in mux.outbuf)
+        try:
+            sent, drained, rounds, left = drain_mux(mux, wr[0], wr[1])
+        except BaseException as e:
+            return ("CRASH", "flush-" + exc_name(e), None)
+        LAST_WIRE.update(drained=drained, rounds=rounds, left=left, queued=queued, lbs=lbs, style=wr[0], wseed=wr[1])
+        wire = shim.stdout.getvalue().encode("latin-1") + sent
     finally:
         (server.ssubprocess.Popen, server.which, server.sys, server.io, ssnet.runonce, helpers.logprefix) = old
         helpers.log, server.log = oldlog
         server.SocketRWShim = oldshim
         FakePopen.rv = 0
-    if (PassThroughShim.made - made0) != (1 if tool == "win" else 0):
-        return ("CRASH", "stdio-shim-used-%d-times-on-%s" % (PassThroughShim.made - made0, shim.platform), None)
-    mux = cap["mux"]
-    wire = shim.stdout.getvalue().encode("latin-1") + b"".join(bytes(x) for x in mux.outbuf)
-    payload = None
-    for p in mux.outbuf:
-        (_s1, _s2, ch, cmd, ln) = struct.unpack("!ccHHH", bytes(p[:8]))
-        if cmd == ssnet.CMD_ROUTES:
-            payload = bytes(p[8:])
-    if payload is None:
-        return ("CRASH", "no-ROUTES-frame", None)
+        ssnet.LATENCY_BUFFER_SIZE = old_lbs
     return ("OK", payload, wire)
+
+
+def wire_decode(wire, chunk_seed):
+    """the client's end of the wire: a real ssnet.Mux whose handle() fills from a reader handing out the bytes in
+    seeded portions; got_routes records.  Returns (list of ROUTES payloads the handler got, exception class or None,
+    bytes the Mux still waits for, bytes it holds)."""
+    ssnet = load()["ssnet"]
+    if not wire.startswith(SYNC):
+        return [], "no-sync-string", 0, 0
+    data = wire[len(SYNC):]
+    rnd = random.Random(chunk_seed)
+    r = FakeR(b"")
+    i = 0
+    while i < len(data):
+        k = int(2 ** rnd.uniform(0, 16.5))
+        r.chunks.append(data[i:i + k])
+        i += k
+    m = ssnet.Mux(r, FakeW())
+    got = []
+    m.got_routes = got.append
+    exn = None
+    try:
+        while r.chunks:
+            m.handle()
+    except BaseException as e:
+        exn = exc_name(e)
+    return got, exn, m.want, len(m.inbuf)
+
+
+def wire_judge(reference, wire, chunk_seed=0):
+    """property oracle on the wire (implementation side only): the ROUTES advertisement `reference` (the canonical list of
+    the routing table, as text) must leave the server and be handed whole, once, to the client's route handler.
+    Returns None or (class, sentence)."""
+    n, plen = reference.count(b"\n"), len(reference)
+    head = "ROUTES advertisement of %d routes (%d payload bytes) sent by the real server through Mux.send/flush " % (n, plen)
+    w = dict(LAST_WIRE)
+    how = "(stdout writer '%s', latency buffer size %s)" % (w.get("style"), w.get("lbs"))
+    if not w.get("drained"):
+        return ("never-leaves", head + "never leaves the server: after %d flush passes %d of %d queued bytes are still held %s"
+                % (w.get("rounds", 0), w.get("left", 0), w.get("queued", 0), how))
+    got, exn, want, have = wire_decode(wire, chunk_seed)
+    if exn is not None:
+        return ("out-of-sync", head + "is not delivered whole to the client: stream out of sync, the client's Mux.handle raised %s "
+                "after %d of %d queued bytes reached it %s" % (exn, len(wire) - len(SYNC), w.get("queued", 0), how))
+    if not got:
+        return ("never-called", head + "is not delivered whole to the client: onroutes never called - only %d of the %d queued bytes left "
+                "the server, the client still waits for %d bytes and has %d %s" % (len(wire) - len(SYNC), w.get("queued", 0), want, have, how))
+    if len(got) != 1 or got[0] != reference:
+        k = sum(1 for a, b in zip(got[0].split(b"\n"), reference.split(b"\n")[:-1]) if a == b)
+        return ("partial", head + "is not delivered whole to the client: client received %d of %d routes (%d ROUTES messages, first of %d bytes) %s"
+                % (k, n, len(got), len(got[0]), how))
+    if want or have:
+        return ("trailing", head + "is followed by %d bytes the client cannot interpret (waits for %d) %s" % (have, want, how))
+    return None
 
 
 class FakeR:
@@ -722,7 +891,7 @@ def sized_table(rng, target):
     """iproute2 table whose ROUTES payload is exactly `target` bytes (no filtered entries)"""
     pool = {}
     tries = 0
-    while len(pool) < 8 and tries < 100000:
+    while len(pool) < 7 and tries < 100000:      # "2,a.b.c.0,24\n" has 7 possible lengths (14 .. 20)
         tries += 1
         ip = rand_addr(rng) & 0xffffff00
         if (ip >> 24) in (0, 127):
@@ -1467,11 +1636,35 @@ def correspondence(ctx):
                                 "exception_classes_seen": sorted(k.split()[1] for k in f7_seen)})
 
     # ---- E: server.main -> ROUTES frame -> client._main (delivery), incl. sizes around 65535 and big tables
-    def delivery_case(tool, fmt, text, exp, desc, check_client=True, rv=0, superset=None):
+    wire_fails = {}
+
+    def wire_check(reference, wire, rp):
+        """the advertisement on the wire (real Mux.flush on a non-blocking stdout -> real client-side Mux.handle)"""
+        w = dict(LAST_WIRE)
+        ctx.count("wire_writer_" + str(w.get("style")))
+        ctx.count("wire_lbs_default" if w.get("lbs") == 32768 else "wire_lbs_other")
+        fl = len(reference) + 8
+        ctx.count("wire_frame_%s_lbs" % ("lt" if fl < w.get("lbs", 0) else "eq" if fl == w.get("lbs") else "gt"))
+        cseed = rng.getrandbits(32)
+        v = wire_judge(reference, wire, cseed)
+        if v is None:
+            return True
+        rp = dict(rp, kind="wire", lbs=w.get("lbs"), writer=w.get("style"), writer_seed=w.get("wseed"), reader_seed=cseed,
+                  n_routes=reference.count(b"\n"), payload_bytes=len(reference), observed=v[1])
+        size = (w.get("lbs") != 32768, len(repr(rp)))      # prefer a witness at the default latency buffer size
+        if v[0] not in wire_fails or size < wire_fails[v[0]][0]:
+            wire_fails[v[0]] = (size, v[1], rp)
+        return False
+
+    def delivery_case(tool, fmt, text, exp, desc, check_client=True, rv=0, superset=None, lbs=None, wr=None, regen=None):
         expk = [e for e in exp if kept(e[0])]
         o = ctx.run_driver(["ADV %s %s" % (tool, hx(text))])[0]
         rep, asf = split_both(o)
-        st, payload, wire = impl_server(tool, text, rv)
+        if lbs is None:
+            lbs = rng.choice([32768, 32768, 1024, 4096, rng.randint(256, 70000)])
+        if wr is None:
+            wr = (rng.choice(WIRE_STYLES), rng.getrandbits(32))
+        st, payload, wire = impl_server(tool, text, rv, lbs=lbs, wr=wr)
         if rv:
             ctx.count("delivery_tool_exit_status_nonzero")
         im = "OK " + hx(payload) if st == "OK" else "CRASH " + payload
@@ -1512,6 +1705,10 @@ def correspondence(ctx):
             ctx.violation("ROUTES payload differs from the canonical networks of the table",
                           {"kind": "delivery", "tool": tool, "text_hex": hx(text)[:6000], "got": payload[:200].decode("latin-1"),
                            "want": want_payload[:200].decode("latin-1"), "tool_exit_status": rv})
+        # what was queued must leave the server and reach the client's route handler whole (every size, every writer)
+        if not wire_check(payload, wire, dict(regen) if regen else
+                          {"tool": tool, "tool_exit_status": rv, "text_hex": hx(text) if len(text) <= 300000 else None}):
+            return
         if not check_client:
             return
         for (auto, v4, v6) in ((True, True, False),) + (((True, True, True), (False, True, False), (True, False, True)) if len(expk) < 50 else ()):
@@ -1550,6 +1747,71 @@ def correspondence(ctx):
         text, exp = st
         ctx.count("delivery_exact_size_%d" % target)
         delivery_case("ip", "ip", text, exp, ["sized", target])
+    # ---- E2: the size of the frame against the writer: payload + 8 bytes of header just below / at / above the latency
+    #      buffer size (default 32768 and small values), up to 65535, every writer style; table sizes 0 .. ~4600 routes.
+    #      A few go the whole way (model, real client._main on the real wire bytes); the sweep runs server.main + wire only.
+    def sized_regen(target, tseed):
+        return sized_table(random.Random(tseed), target)
+
+    def fresh_tseed(target):
+        # a few remainders cannot be met by the last four entries: try other tables of the same size
+        for _ in range(8):
+            tseed = rng.getrandbits(32)
+            if sized_regen(target, tseed) is not None:
+                return tseed
+        return rng.getrandbits(32)
+
+    full = [(32768, 32760, "whole"), (32768, 32761, "rand"), (32768, 49000 + rng.randint(0, 16000), "pipe"), (1024, 1017, "page"),
+            (4096, 4089 + rng.randint(0, 3000), "rand")]
+    if not quick:
+        full += [(l, t, sty) for l in (32768, 1024, 4096, 20000) for t in (l - 9, l - 8, l - 7, l, 2 * l - 8, 2 * l - 7) if 100 < t <= 65535
+                 for sty in ("whole", "rand")]
+    for (l, target, sty) in full:
+        tseed = fresh_tseed(target)
+        st = sized_regen(target, tseed)
+        if st is None:
+            ctx.notes.append("could not build a table with payload size %d" % target)
+            continue
+        text, exp = st
+        ctx.count("delivery_frame_vs_lbs_full")
+        delivery_case("ip", "ip", text, exp, ["sized-wire", l, target, sty], lbs=l, wr=(sty, rng.getrandbits(32)),
+                      regen={"tool": "ip", "tool_exit_status": 0, "sized_target": target, "table_seed": tseed})
+    sweep = []
+    for l in (32768, 1024, 4096, rng.randint(256, 65000)):
+        ts = [0, 14, l - 9, l - 8, l - 7, l, l + 1, 2 * l - 8, 2 * l - 7, 3 * l, 65535, 65534,
+              rng.randint(l - 7, 65535), rng.randint(l - 7, 65535), rng.randint(l - 7, 65535), rng.randint(0, 65535)]
+        if l == 32768:
+            ts += [32767, 32769, 40000, 49152, 65527, 65528]
+        if not quick:
+            ts += [rng.randint(0, 65535) for _ in range(40)] + [rng.randint(l - 7, min(65535, 2 * l)) for _ in range(20)]
+        for t in ts:
+            if 0 <= t <= 65535:
+                sweep.append((l, t))
+    for (l, target) in sweep:
+        tseed = fresh_tseed(target) if target >= 28 else rng.getrandbits(32)
+        st = sized_regen(target, tseed) if target else (b"default via 10.0.0.1 dev eth0\n", [])
+        if st is None:
+            continue        # sizes no table has (1 .. 13, ...)
+        text, exp = st
+        want_payload = "".join("2,%s,%d\n" % e for e in exp).encode()
+        for sty in (WIRE_STYLES if (quick and l in (32768, 1024)) or not quick else (rng.choice(WIRE_STYLES),)):
+            wseed = rng.getrandbits(32)
+            st_, payload, wire = impl_server("ip", text, 0, lbs=l, wr=(sty, wseed))
+            ctx.case(("wire", l, target, sty, tseed, wseed), nontrivial=True,
+                     sample={"kind": "wire", "routes": len(exp), "payload_bytes": target, "latency_buffer_size": l, "writer": sty,
+                             "flush_passes": LAST_WIRE.get("rounds")} if rng.random() < 0.02 else None)
+            ctx.count("wire_sweep")
+            if st_ != "OK":
+                ctx.violation("server dies while advertising routes",
+                              {"kind": "wire", "tool": "ip", "tool_exit_status": 0, "sized_target": target, "table_seed": tseed, "lbs": l,
+                               "writer": sty, "writer_seed": wseed, "reader_seed": 0, "exception": payload, "n_routes": len(exp)})
+                continue
+            # reference = the canonical networks of the routing table (not what the server queued)
+            wire_check(want_payload, wire, {"tool": "ip", "tool_exit_status": 0, "sized_target": target, "table_seed": tseed})
+    for cls in sorted(wire_fails):
+        _sz, sentence, rp = wire_fails[cls]
+        ctx.violation(sentence, rp)
+
     for n in ([3495, 3500, 3505, 5000, 40000] if quick else [3000, 3495, 3500, 3505, 4000, 5000, 10000, 20000, 40000]):
         tool, fmt = fmts[n % 3] if n != 5000 else ("ip", "ip")
         if n == 5000:
@@ -1614,6 +1876,31 @@ def replay(ctx, rp):
         if v is not None:
             print("property failure:", v[0])
         return v is not None or res.startswith("HARNESS")
+    if r.get("kind") == "wire":
+        want = None
+        if r.get("sized_target") is not None:
+            if r["sized_target"] == 0:
+                text, exp = b"default via 10.0.0.1 dev eth0\n", []
+            else:
+                text, exp = sized_table(random.Random(r["table_seed"]), r["sized_target"])
+            want = "".join("2,%s,%d\n" % e for e in exp).encode()
+        elif r.get("text_hex"):
+            text = bytes.fromhex(r["text_hex"]) if r["text_hex"] != "-" else b""
+        else:
+            print("the routing table of this case was too large to store")
+            return False
+        st, payload, wire = impl_server(r.get("tool", "ip"), text, r.get("tool_exit_status", 0), lbs=r.get("lbs", 32768),
+                                        wr=(r.get("writer", "whole"), r.get("writer_seed", 0)))
+        if st != "OK":
+            print("server.main with %d bytes of tool output -> %s %s" % (len(text), st, payload))
+            return not (payload == "AssertionError" and len(want or b"") > 65535)
+        v = wire_judge(want if want is not None else payload, wire, r.get("reader_seed", 0))
+        print("server.main (latency buffer size %s) queued a ROUTES message of %d payload bytes (%d routes); real Mux.flush on a '%s' "
+              "non-blocking stdout: %d passes, %d of %d bytes reached the client, %d still queued"
+              % (r.get("lbs"), len(payload), payload.count(b"\n"), r.get("writer"), LAST_WIRE.get("rounds", 0),
+                 len(wire) - len(SYNC), LAST_WIRE.get("queued", 0), LAST_WIRE.get("left", 0)))
+        print("property failure: " + v[1] if v else "the client's route handler received exactly the advertised list")
+        return v is not None
     if r.get("kind") == "table" and r.get("text_hex"):
         text = bytes.fromhex(r["text_hex"]) if r["text_hex"] != "-" else b""
         got = impl_lr(r["tool"], text)
